@@ -285,6 +285,14 @@ def run(ctx, report: Report) -> None:
             gs = guards(mod, c)
             ok = any('debug' in g for g in gs)
             why = 'under a debug guard (flags default to 0 at import time)'
+            if not ok:
+                # a helper that prints, all of whose call sites in the package sit under a debug guard
+                sites = [x for m2 in src.mods.values() for x in ast.walk(m2.tree) if isinstance(x, ast.Call) and call_name(x).split('.')[-1] == fn.name
+                         and x is not c]
+                site_mods = {id(x): m2 for m2 in src.mods.values() for x in ast.walk(m2.tree) if isinstance(x, ast.Call)}
+                if sites and all(any('debug' in g for g in guards(site_mods[id(x)], x)) for x in sites):
+                    ok = True
+                    gs = gs + [f'every call of {fn.name}() is under a debug guard']
             if not ok and any("':contains'" in g or '":contains"' in g for g in gs):
                 ok = not has_contains
                 why = 'only for the deprecated :contains() alias, which no import-time selector constant uses'
